@@ -116,7 +116,21 @@ def gen_triple(rng, tier="quick"):
         lines.append(m.upper() + " " + ", ".join(ops))
         if rng.random() < 0.1:
             lines.append("")
+    # now and then an input the front end must REJECT: a syntax error, an unsupported mnemonic, a capability no input port
+    # offers — through the library and through the command line alike (exit status, no table)
+    r = rng.random()
+    if r < 0.08 and lines:
+        k = rng.randrange(len(lines))
+        if lines[k].strip():
+            m = lines[k].split(" ", 1)[0]
+            lines[k] = m if rng.random() < 0.5 else m + " " + ", ".join(["R1", "", "R2"][: rng.randint(2, 3)])
+    elif r < 0.14 and lines:
+        lines.insert(rng.randint(0, len(lines)), "NOSUCHOP " + ", ".join(regs[:2]))
+    elif r < 0.18:
+        isa.append(["zzbad", "NoSuchCapability"])
     x = {"desc": desc, "isa": isa, "lines": lines}
+    if rng.random() < 0.35:
+        x["tuple_edges"] = True
     if rng.random() < 0.3:
         # blanks other than space / tab around tokens and commas (ASCII characters `str.isspace` accepts and a text file
         # does not treat as line ends): applied by `rendered` for the library, the model and the command line alike
@@ -199,11 +213,11 @@ def to_non_ascii(rng, x):
     y["isa"] = [[m, r(c)] for m, c in y["isa"]]
     lines = []
     for ln in y["lines"]:
-        if not ln.strip():
+        if not ln.strip() or " " not in ln:
             lines.append(ln)
             continue
         m, rest = ln.split(" ", 1)
-        lines.append(m + " " + ", ".join(op + suffix for op in rest.split(", ")))
+        lines.append(m + " " + ", ".join((op + suffix if op else op) for op in rest.split(", ")))
     y["lines"] = lines
     return y
 
@@ -244,13 +258,15 @@ def recase(rng, x):
     seen_regs = set()
     lines = []
     for ln in y["lines"]:
-        if not ln.strip():
+        if not ln.strip() or " " not in ln:
             lines.append(ln)
             continue
         m, rest = ln.split(" ", 1)
         ops = []
         for op in rest.split(", "):
-            if op.lower() in seen_regs:
+            if not op:
+                ops.append(op)
+            elif op.lower() in seen_regs:
                 ops.append(rc(op))
             else:
                 seen_regs.add(op.lower())
@@ -293,14 +309,19 @@ def pipeline(x, upto="sim"):
             touched.append(name)
 
     res["touched"] = touched
-    desc_before = copy.deepcopy(x["desc"])
+    desc_arg = x["desc"]
+    if x.get("tuple_edges"):
+        # an in-memory description with connections written as tuples (immutable): same meaning as lists
+        desc_arg = copy.deepcopy(x["desc"])
+        desc_arg["dataPath"] = [tuple(e) if isinstance(e, list) and len(e) == 2 else e for e in desc_arg["dataPath"]]
+    desc_before = copy.deepcopy(desc_arg)
     try:
-        proc = processor_utils.load_proc_desc(x["desc"])
+        proc = processor_utils.load_proc_desc(desc_arg)
     except Exception as e:  # noqa: BLE001
-        unchanged("description (rejected)", desc_before, x["desc"])
+        unchanged("description (rejected)", desc_before, desc_arg)
         res["proc"] = err_form(e)
         return res
-    unchanged("description", desc_before, x["desc"])
+    unchanged("description", desc_before, desc_arg)
     res["proc"] = canon_proc(proc)
     res["proc_exact"] = comp_sim.proc_json(proc)
     isa_arg = [tuple(p) for p in x["isa"]]
@@ -381,7 +402,8 @@ def first_spelling_violation(x, res):
         if not ln.strip() or " " not in ln:
             continue
         for op in ln.split(" ", 1)[1].split(", "):
-            first.setdefault(op.lower(), op)
+            if op:
+                first.setdefault(op.lower(), op)
     for srcs, dst, _name, line in parsed:
         for r in [dst, *srcs]:
             if r.lower() in first and r != first[r.lower()]:
@@ -517,7 +539,7 @@ def cases(tier: str) -> list:
     return list(range(64 if tier == "quick" else 640))
 
 
-def evaluate(x, do_cli=True) -> dict:
+def evaluate(x, do_cli=True, do_cli_err=True) -> dict:
     import random
 
     core.install_repo()
@@ -562,6 +584,28 @@ def evaluate(x, do_cli=True) -> dict:
     props["C16"] = {"app": completes and do_cli, "nontrivial": completes and n >= 2 and len(sim["table"]) >= 3 if completes else False,
                     "k": k16, "o": o16}
 
+    # ---- the command line must reject what the library rejects (exit status, no table): C11 / C15 / C14 / C08 through their
+    # secondary channel (seeded changes C11-12: defective description + empty program accepted; C14-12: exit status 0)
+    stage = None
+    if isinstance(base.get("proc"), dict):
+        stage = ("C11", "the processor description is rejected by the loader")
+    elif isinstance(base.get("isa"), dict):
+        stage = ("C15", "the instruction set is rejected")
+    elif isinstance(base.get("prog"), dict):
+        stage = ("C14", "the program text has a syntax error") if base["prog"]["error"] == "CodeError" else \
+            ("C15", "the program uses an unsupported instruction")
+    elif sim and sim.get("outcome") == "stall":
+        stage = ("C08", "the simulation ends in a stall error")
+    if stage is not None and do_cli_err and not non_ascii(x):
+        rj = run_cli(x)
+        o = None
+        if rj["rc"] == 0:
+            o = f"{stage[1]}, but the command line exits with status 0"
+        elif rj["rc"] != "timeout" and any(row and row[0].startswith("I") and row[0][1:].isdigit() for row in (rj["rows"] or [])):
+            o = f"{stage[1]}, but the command line prints a table"
+        props[stage[0]] = {"app": True, "nontrivial": True, "k": True, "o": o}
+        cli = cli or rj
+
     # ---- C20
     o20 = None
     if not args_unchanged:
@@ -601,6 +645,9 @@ def run_case(case, tier="quick") -> dict:
         from . import comp_loader
         fam = rng.choice(["random", "partial", "layered", "deadbranch", "forkjoin", "random"])
         desc, _ = comp_loader.gen_desc(rng, fam)
+        for u in desc["units"]:          # the composed model has integer widths
+            if isinstance(u.get("width"), float):
+                u["width"] = int(u["width"] + 0.5)
         xs[3] = {"desc": desc, "isa": [], "lines": []}
     if rng.random() < 0.3:
         xs[2] = to_non_ascii(rng, xs[2])     # metamorphic C13 oracle beyond ASCII (the model is skipped for it)
@@ -608,8 +655,12 @@ def run_case(case, tier="quick") -> dict:
         x["seed"] = f"{core.base_seed()}:{case}:{i}"
     # the CLI subprocess is slow: one per batch in the quick tier, all in the thorough tier
     outs = []
+    err_budget = 4 if tier == "thorough" else 2       # command-line runs for rejected inputs, per batch
     for i, x in enumerate(xs):
-        outs.append(evaluate(x, do_cli=(tier == "thorough" or i == 0)))
+        o = evaluate(x, do_cli=(tier == "thorough" or i == 0), do_cli_err=err_budget > 0)
+        if any(p in o["props"] for p in ("C11", "C14", "C15", "C08")):
+            err_budget -= 1
+        outs.append(o)
     # fresh interpreters with different hash seeds, whole batch per interpreter
     seeds = HASHSEEDS if tier == "thorough" else [HASHSEEDS[(case + j) % len(HASHSEEDS)] for j in range(2)]
     for k, hs in enumerate(seeds):
@@ -641,7 +692,7 @@ def run_case(case, tier="quick") -> dict:
 
 def replay(prop: str, inp: dict) -> dict:
     o = evaluate(inp, do_cli=True)
-    rec = o["props"][prop]
+    rec = o["props"].get(prop, {"app": False, "nontrivial": False, "k": True, "o": None})
     if prop == "C20" and rec["o"] is None:
         for hs in HASHSEEDS:
             f = fresh_runs([inp], hs)[0]
